@@ -408,7 +408,8 @@ def run():
         # 9. evidence
         chk.cov["traces_validated_against_impl"] = cnt["judged"]
         chk.cov["evaluations"] = cnt["pairs"] + cnt["cal"]
-        chk.cov["distinct_nontrivial"] = cnt["inside"] + cnt["outside"]
+        chk.cov["distinct_nontrivial"] = len({(x["id"], f, json.dumps(g["e"], sort_keys=True)) for x in recs if x["m"] == "sand"
+                                              for g in x["groups"] for f in g["fns"]})
         chk.cov["calls_executed"] = sum(o["calls"] for o in outsA.values()) + ncallsB + sum(o["calls"] for o in outsP.values())
         chk.cov["cases"] = {k: len(v) for k, v in sorted(bycls.items())}
         chk.cov["classes_judged"] = sorted(rep["classes"])
